@@ -18,6 +18,10 @@ func init() {
 			obTypeTables(c, "C17.3")
 			ob4 := c.R.Ob("C17.4", "sibling/send-all", "every Source kind the send-all traversal can reject has a diagnostic on the checker's arm for that kind, conditional on the send-all flag", 2)
 			c.SendAllRejectionsDiagnosed(ob4)
+			ob6 := c.R.Ob("C17.6", "ctrl/origin-order", "a declaration's origin is checked before the variable is declared (the interpreter evaluates it before binding)", 1)
+			c.OriginBeforeDeclaration(ob6)
+			ob7 := c.R.Ob("C17.7", "ctrl/send-all-uncond", "the send-all error for an unbounded overdraft does not depend on the kind of the address expression", 1)
+			c.OverdraftDiagnosticUnconditional(ob7)
 			ob5 := c.R.Ob("C17.5", "ctrl/severity", "the diagnostics for undeclared variable, unknown function, wrong arity, invalid type and type mismatch have error severity", 5)
 			c.SeverityIs(ob5, map[string]string{"UnboundVariable": "ErrorSeverity", "UnknownFunction": "ErrorSeverity", "BadArity": "ErrorSeverity", "InvalidType": "ErrorSeverity", "TypeMismatch": "ErrorSeverity", "DuplicateVariable": "ErrorSeverity", "Parsing": "ErrorSeverity", "InvalidUnboundedAccount": "ErrorSeverity"})
 		},
@@ -34,6 +38,8 @@ func init() {
 			c.OverdraftSendAllConditional(ob2)
 			ob3 := c.R.Ob("C16.3", "ctrl/names", "variable-name diagnostics and resolutions sit on the right edges of the declaration lookup", 4)
 			c.NameBookkeeping(ob3)
+			ob5 := c.R.Ob("C16.5", "typestate/save-restore", "scoped overrides of the checker's send-all / emptied-account state restore, on exit, the value read on entry", 3)
+			c.SaveRestoreClosures(ob5)
 			ob4 := c.R.Ob("C16.4", "sumcheck/S2", "every expression child of every node kind is handed to the expression checker", 15)
 			c.S2(ob4, famCheck)
 		},
